@@ -23,7 +23,7 @@ def _job(name, source):
 SPEC = {
     "id": "C11",
     "level": "exploration",
-    "level_text": "Scripted event handlers (6 functions x 4 user pointers) register, unregister, legacy-add and legacy-remove "
+    "level_text": "Scripted event handlers (6 functions x 4 user pointers, one of them NULL) register, unregister, legacy-add and legacy-remove "
                   "themselves and each other from inside running callbacks while events are raised with vbi_send_event and through "
                   "the real decoder (Teletext pages, VPS, 8/30-1/2, WSS, caption, XDS); every callback is checked on-line against a "
                   "model of the ordered list of registration instances (exactly once, own user pointer, registration order, added-"
